@@ -275,6 +275,9 @@ func (p *Pipeline) installRandomCorpus(reqs []reqEntry) {
 	okPkgs, badPkgs, nMsgs := 0, 0, 0
 	var bad []string
 	p.timed("random_corpus", func() {
+		// generate everything first (packages of one set import each other),
+		// then compile package by package
+		failedGen := map[string]bool{}
 		for _, r := range reqs {
 			if !strings.HasPrefix(r.Name, "rnd") {
 				continue
@@ -283,6 +286,7 @@ func (p *Pipeline) installRandomCorpus(reqs []reqEntry) {
 				defer func() {
 					if e := recover(); e != nil {
 						if he, ok := e.(harnessError); ok {
+							failedGen[r.Name] = true
 							badPkgs += len(r.Packages)
 							bad = append(bad, r.Name+": "+tail(he.msg, 300))
 							return
@@ -291,23 +295,29 @@ func (p *Pipeline) installRandomCorpus(reqs []reqEntry) {
 					}
 				}()
 				p.generate(r)
-				for _, pk := range r.Packages {
-					rel := "./" + strings.TrimPrefix(pk.ImportPath, modPath+"/")
-					if out, err := p.tryRun(p.Src, goEnv("go"), "go", "build", rel); err != nil {
-						badPkgs++
-						bad = append(bad, pk.ImportPath+": "+tail(out, 300))
-						os.RemoveAll(filepath.Join(p.Src, strings.TrimPrefix(pk.ImportPath, modPath+"/")))
-						continue
-					}
-					okPkgs++
-					alias := fmt.Sprintf("rp%d", len(imports))
-					imports = append(imports, fmt.Sprintf("\t%s %q", alias, pk.ImportPath))
-					for _, m := range pk.Messages {
-						lits = append(lits, fmt.Sprintf("\t\t&%s.%s{},", alias, m))
-						nMsgs++
-					}
-				}
 			}()
+		}
+		for _, r := range reqs {
+			if !strings.HasPrefix(r.Name, "rnd") || failedGen[r.Name] {
+				continue
+			}
+			for _, pk := range r.Packages {
+				rel := "./" + strings.TrimPrefix(pk.ImportPath, modPath+"/")
+				if out, err := p.tryRun(p.Src, goEnv("go"), "go", "build", rel); err != nil {
+					badPkgs++
+					bad = append(bad, pk.ImportPath+": "+tail(out, 300))
+					// keep it out of the instrumenter's and the engines' way
+					os.RemoveAll(filepath.Join(p.Src, strings.TrimPrefix(pk.ImportPath, modPath+"/")))
+					continue
+				}
+				okPkgs++
+				alias := fmt.Sprintf("rp%d", len(imports))
+				imports = append(imports, fmt.Sprintf("\t%s %q", alias, pk.ImportPath))
+				for _, m := range pk.Messages {
+					lits = append(lits, fmt.Sprintf("\t\t&%s.%s{},", alias, m))
+					nMsgs++
+				}
+			}
 		}
 		src := "// Code generated by simctl. DO NOT EDIT.\npackage rndcorpus\n\nimport (\n\t\"google.golang.org/protobuf/proto\"\n" + strings.Join(imports, "\n") + "\n)\n\nvar Messages = []proto.Message{\n" + strings.Join(lits, "\n") + "\n}\n"
 		if len(lits) == 0 {
